@@ -223,13 +223,22 @@ def gen_tree(rng, sp, depth, S='S'):
     if depth <= 0:
         return gen_leaf(rng, sp, S)
     rule = rng.choice(['rmul', 'rmul', 'mulr', 'mulr', 'left', 'right', 'rvec', 'sum', 'ssum', 'ssub',
-                       'transl', 'transl', 'qp', 'qp', 'qp0', 'infconv', 'defconj', 'bregman', 'leaf'])
+                       'transl', 'transl', 'qp', 'qp', 'qp0', 'infconv', 'defconj', 'bregman', 'leaf', 'mul0'])
     if rule == 'leaf':
         return gen_leaf(rng, sp, S)
     f = gen_tree(rng, sp, depth - 1, S)
     if rule == 'rmul':
         s = _scalar(rng)
         return Node(s * f.obj, '(cRmul %s %s)' % (C.q(s), f.coq), '(%r * %s)' % (s, f.py), True)
+    if rule == 'mul0':
+        # f * 0 evaluates f(0) eagerly and returns a ConstantFunctional
+        try:
+            f0 = float(f.obj(sp.odl.zero()))
+        except Exception:
+            return f
+        if not np.isfinite(f0):
+            return f
+        return Node(f.obj * 0.0, '(cMul0 %s %s)' % (C.qs(sp.w), f.coq), '(%s * 0.0)' % f.py, True)
     if rule == 'mulr':
         s = _scalar(rng, bad=0.05)
         if s == 0:
@@ -280,7 +289,10 @@ def gen_tree(rng, sp, depth, S='S'):
             fp = f.obj(sp.elem(p))
             if not np.isfinite(fp):
                 return f
-            obj = FF.BregmanDistance(f.obj, sp.elem(p), sp.elem(g))
+            if rng.random() < 0.5:
+                obj = FF.BregmanDistance(f.obj, sp.elem(p), sp.elem(g))
+            else:
+                obj = f.obj.bregman(sp.elem(p), sp.elem(g))
         except Exception:
             return f
         return Node(obj, '(cBreg %s %s %s %s)' % (C.qs(sp.w), f.coq, C.qs(p), C.qs(g)),
@@ -521,7 +533,8 @@ def chk_moreau(f, x, s):
     """prox_{s f}(x) + s prox_{f*/s}(x/s) = x  (s a positive scalar or one step per component)."""
     try:
         fc = f.convex_conj
-        if np.isscalar(s):
+        if np.isscalar(s) or hasattr(s, 'space'):
+            # a positive scalar, or one step per entry given as a space element
             p = f.proximal(s)(x)
             q = fc.proximal(1.0 / s)(x / s)
             res = p + s * q - x
@@ -565,6 +578,8 @@ expected = %(check)r + ' holds'
 def _probe(out, check, key, what, setup, f, x, y, s):
     ok, detail = run_check(check, f, x, y, s)
     rp = _REPLAY % {'verif': C.VERIF, 'setup': setup, 'check': check, 'sigma': s}
+    if hasattr(s, 'space'):
+        rp = rp.replace('%r)\nexpected' % (s,), 'sigma_vec)\nexpected')
     out.append(C.Probe(ok, key, what, rp, detail))
 
 
@@ -640,6 +655,10 @@ def class_probes(rng, tier, out):
                                    'constructing %s on %s raised %s' % (fsrc, sctor, type(e).__name__), None, str(e)[:200]))
                 return
             s = sig if sig is not None else rng.choice([0.5, 1.0, 2.0, 0.25])
+            if isinstance(s, str) and s.startswith('VEC:'):
+                setup += '\nsigma_vec = ' + s[4:]
+                exec('sigma_vec = ' + s[4:], loc)
+                s = loc['sigma_vec']
             for check in checks:
                 _probe(out, check, key or '%s:%s:%s' % (check, tag, kind), '%s for %s on %s' % (check, fsrc, sctor),
                        setup, loc['f'], loc['x'], loc['y'], s)
@@ -663,6 +682,14 @@ def class_probes(rng, tier, out):
         run('Huber', kind, sctor, 'F.Huber(S, 0.75)', allc,
             key='huber-array-weighted' if kind == 'rn_array' else None)
         run('Huber-conj', kind, sctor, 'F.Huber(S, 0.75).convex_conj', ('moreau',))
+        # one step size per entry (sigma given as a space element)
+        vs = 'S.element(np.array([0.5, 2.0, 1.0, 4.0][:S.size]).reshape(S.shape))'
+        for tag, fsrc in (('L1', 'F.L1Norm(S)'), ('L1ball', 'F.L1Norm(S).convex_conj'),
+                          ('L2sq', 'F.L2NormSquared(S)'), ('L2sq-conj', 'F.L2NormSquared(S).convex_conj'),
+                          ('L2sq-scaled', '3.0 * F.L2NormSquared(S)'),
+                          ('L1-transl', 'F.L1Norm(S).translated(S.one())'),
+                          ('L1-quadpert', 'FF.FunctionalQuadraticPerturb(F.L1Norm(S), 0.5, S.one(), 1.0)')):
+            run('vecsigma-' + tag, kind, sctor, fsrc, ('moreau',), sig='VEC:' + vs)
         # QuadraticForm with a matrix operator (inner product of the space: only rn has the plain transpose)
         if kind == 'rn':
             run('QuadMatrix-sym', kind, sctor,
